@@ -173,6 +173,9 @@ struct Obj {
   bool is_live;
   bool is_root;
   StringArray refs;
+
+  // Anonymous global variable: the function whose body created it
+  Obj *owner;
 };
 
 // Global variable can be initialized either by a constant expression
